@@ -56,6 +56,10 @@ type FakeConsul struct {
 	FailStatus string // status used for a failing check (default "critical")
 	// BadTagsFn, when set, supplies the tags of an instance in state "bad"
 	BadTagsFn func(id string) []string
+	// Ext, when set, is consulted first for every request; it returns true when it served the
+	// request (extension point for endpoints this file does not implement: agent service
+	// registration, KV writes with CAS, ...).  Use Lock/Unlock/Log to stay consistent with the trace.
+	Ext func(w http.ResponseWriter, r *http.Request) bool
 
 	parkedH   map[uint64]int // index -> number of health queries parked at it
 	parkedK   map[uint64]int
@@ -226,7 +230,17 @@ func (f *FakeConsul) Indices() (uint64, uint64) {
 
 // ------------------------------------------------------------------ HTTP
 
+// Lock / Unlock expose the state mutex to extensions; Log adds a trace event (call it with the
+// mutex held so that the order of the log is the order of the state changes).
+func (f *FakeConsul) Lock()                 { f.mu.Lock() }
+func (f *FakeConsul) Unlock()               { f.mu.Unlock() }
+func (f *FakeConsul) Log(ev map[string]any) { f.logLocked(ev) }
+func (f *FakeConsul) Wake()                 { f.cond.Broadcast() }
+
 func (f *FakeConsul) serve(w http.ResponseWriter, r *http.Request) {
+	if f.Ext != nil && f.Ext(w, r) {
+		return
+	}
 	p := r.URL.Path
 	switch {
 	case p == "/v1/agent/self":
@@ -359,11 +373,11 @@ func (f *FakeConsul) serveCatalog(w http.ResponseWriter, r *http.Request, name s
 		return
 	}
 	type cs struct {
-		ID, Node, Address, Datacenter  string
-		ServiceID, ServiceName         string
-		ServiceAddress                 string
-		ServiceTags                    []string
-		ServicePort                    int
+		ID, Node, Address, Datacenter string
+		ServiceID, ServiceName        string
+		ServiceAddress                string
+		ServiceTags                   []string
+		ServicePort                   int
 	}
 	var out []cs
 	var ids []string
@@ -425,10 +439,10 @@ func (f *FakeConsul) serveKV(w http.ResponseWriter, r *http.Request, key string)
 		return
 	}
 	type kvp struct {
-		Key                                  string
-		CreateIndex, ModifyIndex, LockIndex  uint64
-		Flags                                uint64
-		Value                                string
+		Key                                 string
+		CreateIndex, ModifyIndex, LockIndex uint64
+		Flags                               uint64
+		Value                               string
 	}
 	writeJSON(w, cur, []kvp{{Key: f.KVPath, CreateIndex: 1, ModifyIndex: cur, Value: base64.StdEncoding.EncodeToString([]byte(text))}})
 }
